@@ -126,7 +126,12 @@ TraceIntegrate ==
     /\ ends' = Ev.ends /\ pieces' = Ev.pieces
     /\ pre' = [op |-> "integrate", ends |-> ends, pieces |-> pieces]
     /\ Keep(<< kind, handle, off, last, vprev, vlast >>)
-    /\ IF ~(FiniteT(pieces) /\ FiniteT(Ev.pieces) /\ Finite(ends) /\ IsFinite(Ev.kx) /\ IsFinite(Ev.ky)) THEN TRUE
+    /\ IF ~(FiniteT(pieces) /\ FiniteT(Ev.pieces) /\ Finite(ends) /\ IsFinite(Ev.kx) /\ IsFinite(Ev.ky)
+            /\ InRange(Val(Ev.ky))
+            /\ \A j \in 1..Len(pieces) :
+                  /\ TermsInScope(B!Indef(Vals(pieces[j])), Val(Ev.kx), 9)
+                  /\ TermsInScope(B!Indef(Vals(pieces[j])), Val(ends[j]), 9)
+                  /\ j > 1 => TermsInScope(B!Indef(Vals(pieces[j])), Val(ends[j - 1]), 9)) THEN TRUE
        ELSE /\ Tally(11, TRUE)
             /\ JudgeIn("integrate", Ev.ends = ends, "breakpoints changed")
             /\ JudgeIn("integrate", IntegrateOK(Val(Ev.kx), Val(Ev.ky)), "piecewise integral")
